@@ -4,6 +4,7 @@ spec: Identity.tla (state machine over pop / kids), IdentityGen.tla (case genera
 code: artap.individual.Individual.__eq__/__hash__, GeneticAlgorithm.generate, set(), list.remove, `in`
 """
 import json
+import math
 import os
 
 from .. import core, tlc
@@ -170,6 +171,13 @@ class Lists(Part):
                     continue
                 seen.add(b[1])
                 cases.append({"kind": "beh", "dim": dim, "ops": json.loads(b[1]), "cseed": ctx.rng.randrange(1 << 30)})
+        # beyond the model's bounds: longer lists with many repeats, de-duplicated at the end (merged NSGA-II populations look like this)
+        rng = ctx.rng
+        for _ in range(150 if ctx.quick else 3000):
+            dim = rng.randint(1, 3)
+            pts = [[[rng.randrange(2), 0] for _ in range(dim)] for _ in range(rng.randint(2, 4))]
+            ops = [{"op": "append", "p": rng.choice(pts)} for _ in range(rng.randint(3, 9))] + [{"op": "dedupe", "p": []}]
+            cases.append({"kind": "beh", "dim": dim, "ops": ops, "cseed": rng.randrange(1 << 30)})
         return cases
 
     def run_case(self, ctx, case):
@@ -190,7 +198,19 @@ class Lists(Part):
             if o["op"] == "dedupe":
                 if not pop:
                     continue
-                st, res = observe(lambda: list(set(pop)))
+                if rng.random() < 0.5:
+                    st, res = observe(lambda: list(set(pop)))
+                else:
+                    # the framework's own call site of set-based de-duplication: environmental selection without truncation.  Repeated
+                    # designs carry the same rank and crowding distance; different designs may tie with them.
+                    from artap.operators import nondominated_truncate
+                    feat = {}
+                    for x, a in zip(pop, popabs):
+                        key = json.dumps(a)
+                        if key not in feat:
+                            feat[key] = (rng.choice([1, 1, 2]), rng.choice([0.0, 0.5, math.inf]))
+                        x.features["front_number"], x.features["crowding_distance"] = feat[key]
+                    st, res = observe(nondominated_truncate, list(pop), len(pop))
                 ev = {"ev": "dedupe", "lst": list(popabs), "res": [], "exc": ""}
                 if st == "exc":
                     ev["exc"] = res
